@@ -70,6 +70,12 @@ sk = [tuple(x) for x in d.get('skeleton', [])]
 if sk[:2] != [('strip_prefix', 'pkg:', ''), ('trim_start_matches', '', '/')]: warn(f'scheme / leading-slash handling not recognised: {sk[:2]}')
 if [m for (m, lit, c) in sk if c == '/' and m in ('rsplit_once', 'split_once')] != ['split_once', 'rsplit_once']: warn('type / namespace splits not recognised')
 if d.get('checksum_key') != ['checksum']: warn(f"Checksum::KEY is {d.get('checksum_key')}", ['C12', 'C04'])
+exp_typed = ['RepositoryUrl', 'DownloadUrl', 'VcsUrl', 'FileName', 'Platform', 'Classifier', 'Type']
+tk = d.get('typed_keys') or []
+if [x[0] for x in tk] != exp_typed: warn(f'typed qualifier types differ from the expected list: {[x[0] for x in tk]}', ['C06'])
+tkd = dict((a, b) for a, b in tk)
+def_keys = dict(zip(exp_typed, ['repository_url', 'download_url', 'vcs_url', 'file_name', 'platform', 'classifier', 'type']))
+typed = '; '.join(bl(list((tkd.get(n, def_keys[n])).encode())) for n in exp_typed)
 src = f"""(* generated by tools/gen_consts_v.py from the current /repo/purl/src - do not edit *)
 From Coq Require Import List NArith.
 From PM Require Import Base Text Model Tables.
@@ -83,7 +89,8 @@ Definition src_cfg : config :=
      type_special := {bl(tsp)}; key_special := {bl(ksp)}; dash_chars := {bl(dash)};
      lower_tbl := std_lower_tbl; upper_rng := std_upper_rng; fold_tbl := unicase_fold_tbl;
      scan_lower_ne := {scan_ip}; cap_saturating := {cap}; maven_ns_segments := {mv};
-     dir_sub := {dsub}; dir_qual := {dq}; dir_ver := {dv} |}}.
+     dir_sub := {dsub}; dir_qual := {dq}; dir_ver := {dv};
+     typed_keys := [{typed}] |}}.
 """
 open(out, 'w').write(src)
 json.dump({'problems': problems, 'source': {k: d.get(k) for k in ('scan_in_place', 'scan_copy', 'cap_form', 'maven_ns', 'type_special', 'key_special', 'dash_chars')},
